@@ -655,6 +655,26 @@ def build_unit(name, repo, template_path, overlay_path, twin_false=False, varian
                         emit_fn(file, hre, im, fn)
                         chunks.append(('text', '\n'))
                     chunks.append(('text', '}\n'))
+                elif kind == 'uses':
+                    # T5: of the source files' `use` lines only those naming the (shimmed) container crates are
+                    # carried over, de-duplicated; everything else lives in this one module already
+                    files = a[2].split(',')
+                    crates = ('emap', 'micromap', 'microstack')
+                    seen_use = set()
+                    for file in files:
+                        for it in _load_items(repo, file, cache):
+                            if it.kind != 'use' or it.attrs():
+                                continue
+                            toks_u = _trim([t for t in it.toks[it.lead_end:] if t.kind not in ('lcomment', 'bcomment')])
+                            sig = [t.text for t in toks_u if t.sig()]
+                            k0 = 1
+                            if len(sig) > 1 and sig[1] == '::':
+                                k0 = 2
+                            if len(sig) > k0 and sig[k0] in crates:
+                                key = ''.join(sig)
+                                if key not in seen_use:
+                                    seen_use.add(key)
+                                    chunks.append(('toks', toks_u, file))
                 elif kind == 'implitems':
                     # like impl, but also copies associated `type X = ..;` items (trait impls)
                     file, hre = a[2], a[3]
